@@ -519,7 +519,7 @@ func c11NewRoot(c *Ctx, rule string) {
 		set := map[string]bool{}
 		ast.Inspect(arm.Body, func(x ast.Node) bool {
 			if call, ok := x.(*ast.CallExpr); ok {
-				if k := calleeKey(f.Callee(call)); strings.HasPrefix(k, "storage.") {
+				if k := calleeKey(f.Callee(call)); k == "storage.store.append" || k == "storage.fileStore.append" || k == "storage.BTree.setRoot" || k == "storage.btreeNode.setRightMostKey" || k == "storage.btreeNode.appendInternalCell" || k == "storage.btreeNode.insertInternalCell" {
 					set[k] = true
 				}
 			}
